@@ -1,6 +1,6 @@
 (* The Q instance of the model, as the functions the runner calls. *)
 From Coq Require Import List ZArith QArith Bool.
-From SplipyModel Require Import Model.Num Model.BasisDef Model.BasisEval Model.Knots Model.Tensor Model.Obj.
+From SplipyModel Require Import Model.Num Model.BasisDef Model.BasisEval Model.Knots Model.Tensor Model.Obj Model.Deriv.
 Import ListNotations.
 
 Definition q_basis_evaluate := @basis_evaluate Q NumQ.
@@ -14,4 +14,7 @@ Definition q_obj_deriv := @obj_deriv Q NumQ.
 Definition q_mkBasis := @mkBasis Q.
 Definition q_mkObj := @mkObj Q.
 Definition q_wf_basis := @wf_basis Q NumQ.
+Definition q_curve_deriv := @curve_deriv Q NumQ.
+Definition q_surface_deriv := @surface_deriv Q NumQ.
+Definition q_eval_h := @eval_h Q NumQ.
 Definition q_res_witness (e : err) : res unit := Err e.
